@@ -282,6 +282,16 @@ def replay(v):
     ok, detail = brute(tuple(case["inputs"]), case["output"], size, case["obj"], case["outer"], int(v["cap"]))
     if not ok and v.get("previous"):
         detail = f"after an unrelated optimal request with minimize={v['previous']!r} in the same process: " + detail
+    if ok and not v.get("previous"):
+        # the symbolic run shared its process with earlier work items: if the answer depends on what the process
+        # answered before, the counterexample only reproduces after such a request
+        from cotengra.pathfinders.path_basic import optimize_optimal
+
+        for prev in PREVIOUS[1:]:
+            optimize_optimal(("ab", "bc", "ca"), "", {"a": 2, "b": 3, "c": 4}, minimize=prev)
+            ok2, detail2 = brute(tuple(case["inputs"]), case["output"], size, case["obj"], case["outer"], int(v["cap"]))
+            if not ok2:
+                return True, f"after an unrelated optimal request with minimize={prev!r} in the same process: " + detail2
     return (not ok), detail
 
 
